@@ -162,6 +162,9 @@ def edge_params(edge, rs):
     tie = mp.pop('__tie__', None)
     if tie:
         sp[tie[0]] = sp[tie[1]]
+    fixs = mp.pop('__simple__', None)      # parameters of the SIMPLE model held at given values (e.g. its migration rates at 0)
+    if fixs:
+        sp.update({k: float(v) for k, v in fixs.items()})
     cp = {}
     env = dict(sp)
     for p in fc.__param_names__:
@@ -246,3 +249,68 @@ def r3(case, rec):
     ok = errs[-1] <= 1e-7 or (errs[2] <= 1.05 * errs[0] and errs[2] <= 1e-3)
     require(ok, '%s is not equivariant under swapping population labels: difference %.3e, %.3e, %.3e at time steps 4e-3, 1e-3, 2.5e-4 '
             '(does not vanish with the step); params %r' % (name, errs[0], errs[1], errs[2], pd), model=name)
+
+
+# ------------------------------------------------------------------------------------------------ R4 selection overlay
+OVERLAY = [('SEL.two_epoch_sel', 'D1.two_epoch'), ('SEL.three_epoch_sel', 'D1.three_epoch'), ('SEL.growth_sel', 'D1.growth'),
+           ('SEL.bottlegrowth_1d_sel', 'D1.bottlegrowth_1d'),
+           ('SEL.IM_pre_sel', 'D2.IM_pre'), ('SEL.IM_sel', 'D2.IM'), ('SEL.split_mig_sel', 'D2.split_mig'), ('SEL.split_asym_mig_sel', 'D2.split_asym_mig'),
+           ('SEL.split_delay_mig_sel', 'D2.split_delay_mig'), ('SEL.bottlegrowth_2d_sel', 'D2.bottlegrowth_2d'),
+           ('SEL.bottlegrowth_split_sel', 'D2.bottlegrowth_split'), ('SEL.bottlegrowth_split_mig_sel', 'D2.bottlegrowth_split_mig')]
+
+
+class selection_overlay:
+    """While active, every phi_1D / one_pop call made by library code carries gamma=g1 and every two_pops call gamma1=g1,
+    gamma2=g2: the neutral library model then computes 'the same demography with selection g1 in population 1 and the ancestor and
+    g2 in population 2', which is what its *_sel counterpart documents."""
+    def __init__(self, g1, g2):
+        self.g1, self.g2 = g1, g2
+
+    def __enter__(self):
+        from dadi import Integration, PhiManip
+        self.saved = (PhiManip.phi_1D, Integration.one_pop, Integration.two_pops)
+        p1, o1, t2 = self.saved
+        g1, g2 = self.g1, self.g2
+        PhiManip.phi_1D = lambda xx, *a, **k: p1(xx, *a, **dict(k, gamma=g1))
+        Integration.one_pop = lambda phi, xx, T, *a, **k: o1(phi, xx, T, *a, **dict(k, gamma=g1))
+        Integration.two_pops = lambda phi, xx, T, *a, **k: t2(phi, xx, T, *a, **dict(k, gamma1=g1, gamma2=g2))
+        return self
+
+    def __exit__(self, *exc):
+        from dadi import Integration, PhiManip
+        PhiManip.phi_1D, Integration.one_pop, Integration.two_pops = self.saved
+
+
+def enum_overlay(tier, shard, nshards, seed):
+    reps = 8 if tier == 'quick' else 30
+    k = 0
+    for r in range(reps):
+        for sel, neu in OVERLAY:
+            if k % nshards == shard:
+                yield dict(sel=sel, neutral=neu, seed=(seed + 32452843 * k) % (2 ** 31), n=2 + (k % 3), pts=14 + (k % 4))
+            k += 1
+
+
+@REG.relation('R4-selection-overlay', enum=enum_overlay, quick=(8 * len(OVERLAY), 16), thorough=(30 * len(OVERLAY), 16))
+def r4(case, rec):
+    """Each demography-plus-selection model equals its neutral counterpart with selection switched on in the primitives (gamma1 in
+    population 1 and the ancestral population, gamma2 in population 2), for unequal coefficients - a differential oracle that
+    isolates the selection arguments of every call the model makes."""
+    fs_, fn_ = resolve(case['sel']), resolve(case['neutral'])
+    rs = np.random.RandomState(case['seed'])
+    pd = draw_params(rs, fs_)
+    if 'gamma' in pd:
+        g1 = g2 = pd['gamma']
+    else:
+        g1, g2 = pd['gamma1'], pd['gamma2']
+    dim = dim_of(case['sel'], fs_)
+    ns = (case['n'],) * dim
+    rec.case(case, g1 != g2, [case['sel'], 'dim=%d' % dim])
+    with D.timescale(factor=4e-3):
+        a = evaluate(case['sel'], fs_, pd, ns, case['pts'])
+        with selection_overlay(g1, g2):
+            b = evaluate(case['neutral'] + ' with selection in the primitives', fn_, {p: pd[p] for p in fn_.__param_names__}, ns, case['pts'])
+    da, db = np.asarray(np.ma.getdata(a), float), np.asarray(np.ma.getdata(b), float)
+    m = np.ma.getmaskarray(b)
+    require_close(da[~m], db[~m], 1e-10, '%s(%s) vs %s with gamma1=%.4g, gamma2=%.4g switched on in phi_1D / one_pop / two_pops'
+                  % (case['sel'], ', '.join('%s=%.4g' % kv for kv in pd.items()), case['neutral'], g1, g2), rec, key='selection overlay', model=case['sel'])
